@@ -1,7 +1,7 @@
 (* One entry point for the correspondence check: a request (an S-expression naming a stage and its input) is
    decoded, run through the model, and the observable encoded back.  Used extracted (driver/) and inside Coq. *)
 From Coq Require Import List String Ascii Bool NArith ZArith.
-From Yae Require Import Base.Sexp Model.Ty Gen.Generated Model.Unify Model.Lexer Model.Literal Model.Cst Model.Pratt Model.Desugar Model.Check Model.Num Model.Val Model.Render Model.Builtins Model.Eval Model.VM Model.Verifier Model.Sql Model.Debug.
+From Yae Require Import Base.Sexp Model.Ty Gen.Generated Model.Unify Model.Lexer Model.Literal Model.Cst Model.Pratt Model.Desugar Model.Check Model.Num Model.Val Model.Render Model.Builtins Model.Eval Model.VM Model.Verifier Model.Sql Model.Debug Model.Api.
 Import ListNotations.
 Open Scope string_scope.
 
@@ -332,6 +332,22 @@ Definition run_debugsrc (args : list sexp) : sexp :=
   | _ => bad
   end.
 
+(* (apieval history tenv venv oracles src): the facade's Eval over raw environments: value, error or escaped panic *)
+Definition run_apieval (args : list sexp) : sexp :=
+  match args with
+  | [h; te; ve; orc; src] =>
+      match dec_fenv h, dec_tenv te, dec_venv ve, dec_oracles orc, dNs src with
+      | Some fe, Some te', Some ve', Some orc', Some src' =>
+          match api_eval ops orc' fe te' ve' src' with
+          | AOk v => L [A "ok"; enc_val (canon_val sort_entries v)]
+          | AErr => A "err"
+          | Escaped => A "escaped"
+          end
+      | _, _, _, _, _ => bad
+      end
+  | _ => bad
+  end.
+
 Definition dispatch (req : sexp) : sexp :=
   match req with
   | L (A tag :: args) =>
@@ -357,6 +373,7 @@ Definition dispatch (req : sexp) : sexp :=
       else if tag =? "verify" then run_verify args
       else if tag =? "sql" then run_sql args
       else if tag =? "debugsrc" then run_debugsrc args
+      else if tag =? "apieval" then run_apieval args
       else bad
   | _ => bad
   end.
